@@ -25,6 +25,7 @@ import GcArena.Model.Conv
           `ill-typed <index of the first ill-typed step>` | `bad-placement`
     ill <target> <chain> <s|w>  Answer as for `case` without the placement-dependent fields
                                 (start pointer strong / weak).
+    enum <target> <s|w>         Answer `enum ok` (the harness reports that it could enumerate).
     count <target> <len> <s|w>  Answer `count <number of well-typed chains of exactly that length>`.
     zst <size> <align> <maxalign> <alloc|alloc_static>
         Answer `shared=<0|1> fresh=<0|1> drops_now=<n> drops_later=<n> aligned=<0|1>` (aligned:
@@ -160,6 +161,11 @@ def answer (ws : List String) : String :=
     match parseTarget t, parseChain ch, (if w = "s" then some Age.fresh else if w = "w" then some Age.ww else none) with
     | some t, some ch, some age => answerCase t ch none .sleep age
     | _, _, _ => "bad-query"
+  | ["enum", t, w] =>
+    -- the harness enumerated the chains the real API accepts for this target without incident
+    match parseTarget t with
+    | some _ => if w = "s" ∨ w = "w" then "enum ok" else "bad-query"
+    | none => "bad-query"
   | ["count", t, n, w] =>
     match parseTarget t, n.toNat?, (if w = "s" then some false else if w = "w" then some true else none) with
     | some t, some n, some weak =>
